@@ -461,6 +461,18 @@ func pptxParts(d pptxw.Deck) (parts []part, files []string) {
 	return
 }
 
+// selections returns slide selections for a deck with n readable slides: ascending, descending, with a gap, a single one.
+func (c PCase) selections(n int) [][]int {
+	out := [][]int{{n - 1}}
+	if n >= 2 {
+		out = append(out, []int{n - 1, 0}, []int{0, n - 1})
+	}
+	if n >= 3 {
+		out = append(out, []int{1}, []int{2, 0})
+	}
+	return out
+}
+
 func slideTokens(s *pptx.Slide) []string {
 	var sb strings.Builder
 	seenTitle := false
@@ -508,6 +520,63 @@ func checkPPTX(c PCase) error {
 		}
 		if err := checkPages("pptx.Reader", pages, withNotes); err != nil {
 			return err
+		}
+		// a selection of slides: exactly the texts of the selected slides, and the reader answers afterwards as before
+		if n := r.SlideCount(); n > 0 {
+			before, _ := r.Text()
+			beforeMD, _ := r.Markdown()
+			for _, sel := range c.selections(n) {
+				want := map[string]bool{}
+				for _, i := range sel {
+					for _, tk := range withNotes[i].must {
+						want[tk] = false
+					}
+				}
+				for _, view := range []string{"TextWithOptions", "MarkdownWithOptions"} {
+					o := pptx.ExtractOptions{IncludeTitles: true, IncludeNotes: true, SlideNumbers: sel}
+					var out string
+					if view == "TextWithOptions" {
+						out, _ = r.TextWithOptions(o)
+					} else {
+						out, _ = r.MarkdownWithOptions(o)
+					}
+					for k := range want {
+						want[k] = false
+					}
+					for _, tk := range found(out) {
+						if _, ok := want[tk]; !ok {
+							mayBe := false
+							for _, i := range sel {
+								for _, m := range withNotes[i].may {
+									mayBe = mayBe || m == tk
+								}
+							}
+							if !mayBe {
+								return fmt.Errorf("pptx.Reader.%s(SlideNumbers %v) holds %s, which is on none of the selected slides", view, sel, tk)
+							}
+							continue
+						}
+						want[tk] = true
+					}
+					for k, seen := range want {
+						if !seen {
+							return fmt.Errorf("pptx.Reader.%s(SlideNumbers %v) lacks %s of a selected slide", view, sel, k)
+						}
+					}
+				}
+				if after, _ := r.Text(); after != before {
+					return fmt.Errorf("pptx.Reader.Text() changed after an extraction with SlideNumbers %v", sel)
+				}
+				if after, _ := r.Markdown(); after != beforeMD {
+					return fmt.Errorf("pptx.Reader.Markdown() changed after an extraction with SlideNumbers %v", sel)
+				}
+				for i := 0; i < r.SlideCount(); i++ {
+					sl, _ := r.Slide(i)
+					if fmt.Sprint(slideTokens(sl)) != fmt.Sprint(pages[i]) {
+						return fmt.Errorf("pptx.Reader.Slide(%d) changed after an extraction with SlideNumbers %v", i, sel)
+					}
+				}
+			}
 		}
 		return checkTabula(path, parts, nil)
 	})
